@@ -181,10 +181,11 @@ fn cases(tier: Tier) -> Vec<Case> {
     let mut payloads: Vec<(String, Vec<Vec<u8>>)> = payloads.into_iter().map(|(n, p)| (n.to_owned(), p)).collect();
     // many small chunks (the chain is long: every chunk signature depends on all its predecessors)
     payloads.push(("L60c6".to_owned(), (0..6u8).map(|i| vec![b'a' + i; 10]).collect()));
+    // data that looks like chunk headers, final chunks and line ends
+    payloads.push(("L300c3-with-empty-looking-data".to_owned(), vec![b"0;chunk-signature=".repeat(5), b"\r\n0\r\n\r\n".repeat(10), vec![b'0'; 110]]));
     if tier == Tier::Thorough {
         payloads.push(("L640c40".to_owned(), (0..40u8).map(|i| (0..16u8).map(|j| i.wrapping_mul(16).wrapping_add(j)).collect()).collect()));
         payloads.push(("L4096c4".to_owned(), (0..4usize).map(|i| big[i * 1024..(i + 1) * 1024].to_vec()).collect()));
-        payloads.push(("L300c3-with-empty-looking-data".to_owned(), vec![b"0;chunk-signature=".repeat(5), b"\r\n0\r\n\r\n".repeat(10), vec![b'0'; 110]]));
         // every way of cutting a 6-byte payload into chunks (all 32 compositions of 6)
         let data = b"ab\r\n0;";
         for mask in 0u32..32 {
@@ -399,7 +400,7 @@ pub fn run(ctx: &Ctx) -> (Acc, Report) {
     });
     let rep = Report {
         level: "fault_enumeration",
-        rule: format!("{n_cases} faulty uploads x framings {{one frame, cut exactly at the fault, 1-byte frames}}: payloads of 0/1/5/12/60/66560 bytes in 0-6 chunks (thorough: also 40 chunks of 16 bytes, 4 of 1 KiB, data that looks like chunk headers, and all 32 ways of cutting a 6-byte payload containing CR LF 0 ; into chunks), encoded by the reference encoder; single faults at every position: bit flips (every bit of every byte for the small uploads; bits 0 and 5 of every header byte and a stride of data bytes for the 64 KiB one), truncation at every offset, delete/duplicate/swap of each chunk, splice of the same-index chunk of a request for another key and for another date, re-signing against the wrong predecessor, signature field shortened to a prefix / lengthened / upper-cased, resizing, garbage after the final chunk, wrong/absent declared decoded length. Oracle: reference decoder of the faulty bytes; observed at the backend's body stream. Distinct by (fault, framing)."),
+        rule: format!("{n_cases} faulty uploads x framings {{one frame, cut exactly at the fault, 1-byte frames}}: payloads of 0/1/5/12/60/300/66560 bytes in 0-6 chunks, data that looks like chunk headers and final chunks among them (thorough: also 40 chunks of 16 bytes, 4 of 1 KiB, and all 32 ways of cutting a 6-byte payload containing CR LF 0 ; into chunks), encoded by the reference encoder; single faults at every position: bit flips (every bit of every byte for the small uploads; bits 0 and 5 of every header byte and a stride of data bytes for the 64 KiB one), truncation at every offset, delete/duplicate/swap of each chunk, splice of the same-index chunk of a request for another key and for another date, re-signing against the wrong predecessor, signature field shortened to a prefix / lengthened / upper-cased, resizing, garbage after the final chunk, wrong/absent declared decoded length. Oracle: reference decoder of the faulty bytes; observed at the backend's body stream. Distinct by (fault, framing)."),
         exhaustive: true,
         extra: json!({"fault_cases": n_cases}),
         assumptions: vec!["reference encoder validated against the AWS documentation example (seed and all three chunk signatures) at start-up".into(), "HMAC/SHA collisions out of scope".into()],
